@@ -167,7 +167,11 @@ def job_tree(res, rng, w, home, job):
     # metadata + location columns
     cols = ["path", "name", "ext", "dir", "abspath", "absdir", "size", "uid", "gid", "user", "group", "inode", "hardlinks", "blocks",
             "modified", "mode", "is_hidden", "is_empty"] + PERM_COLS + TYPE_COLS
-    trav = rng.choice(["", "", " dfs", " bfs", " dfs mindepth 1"])
+    # with `symlinks` the search also descends into linked directories, but every entry - a link included - still reports its own
+    # attributes; rows that come from behind a link are not judged here, nor is the number of rows (a directory first reached
+    # through a link is listed under the link's path only - C18's business)
+    trav = rng.choice(["", "", " dfs", " bfs", " dfs mindepth 1", " symlinks", " sym dfs"])
+    follow = "sym" in trav
     res.cover("traversal", trav.strip() or "default")
     rows, ctx = run_cols(res, w, home, cols, (model.quote_lit(spelled) if " " in spelled else spelled) + trav, tz=tz)
     if rows is None:
@@ -180,6 +184,8 @@ def job_tree(res, rng, w, home, job):
         a = os.path.normpath(os.path.join(w, cells["path"]))
         e = absmap.get(a)
         if e is None:
+            if follow:
+                continue
             res.viol("row for unknown path %r" % cells["path"], ctx)
             return
         by_path[a] = cells
@@ -227,7 +233,7 @@ def job_tree(res, rng, w, home, job):
             return
         res.cover("entry_kinds", e.kind)
         res.nt("meta|%s|%o|%s" % (e.kind, stat.S_IMODE(st.st_mode), e.name))
-    if len(rows) != len(snap):
+    if len(rows) != len(snap) and not follow:
         res.viol("%d rows for %d entries" % (len(rows), len(snap)), ctx)
         return
     res.count("metadata_rows_checked", len(rows))
